@@ -508,3 +508,49 @@ def rule_pairs_broadcast_nax(ctx) -> RuleResult:
                        f"the codes are broadcast to the array's shape only when {restr[0]}: with one reduced axis, labels of shape (1,) (accepted by "
                        "_assert_by_is_aligned) give one code for several values -- AssertionError in _prepare_for_flox (engine='flox')")
     return res
+
+
+# ---------------------------------------------------------------------------------------------
+# R-PAIRS[transpose] (C07): an axis order handed to ndarray.transpose lists *source* positions.
+# `a.transpose(*order)` makes new axis i the old axis order[i].  To bring an array whose dims are D into the order T one needs
+# order = [D.index(d) for d in T]; the inverse, [T.index(d) for d in D], is the same list only for the identity and for single swaps -- for a
+# 3-D grouper whose dims are a rotation of the array's, labels are attached to the wrong elements.
+def rule_pairs_transpose(ctx) -> RuleResult:
+    res = RuleResult("R-PAIRS[transpose]", "transpose orders index into the dims of the array being transposed", min_instances=1)
+    n = 0
+    for q, f in sorted(ctx.prog.funcs.items()):
+        if isinstance(f.node, ast.Lambda) or f.is_overload:
+            continue
+        # (dims variable, array variable) pairs from `for D, A in zip(<dims seq>, <arrays seq>)`
+        pairs = {}
+        for lp in walk_own(f.node):
+            if isinstance(lp, ast.For) and isinstance(lp.target, ast.Tuple) and len(lp.target.elts) == 2 and isinstance(lp.iter, ast.Call) and norm(lp.iter.func) == "zip" \
+                    and all(isinstance(e, ast.Name) for e in lp.target.elts) and len(lp.iter.args) == 2:
+                a0, a1 = norm(lp.iter.args[0]), norm(lp.iter.args[1])
+                d, a = lp.target.elts[0].id, lp.target.elts[1].id
+                if "dim" in a0 and "dim" not in a1:
+                    pairs[a] = d
+                elif "dim" in a1 and "dim" not in a0:
+                    pairs[d] = a
+        for c in calls_in(f.node):
+            if not (isinstance(c.func, ast.Attribute) and c.func.attr == "transpose" and isinstance(c.func.value, ast.Name) and c.func.value.id in pairs
+                    and len(c.args) == 1 and isinstance(c.args[0], ast.Starred) and isinstance(c.args[0].value, ast.Name)):
+                continue
+            arr, order = c.func.value.id, c.args[0].value.id
+            D = pairs[arr]
+            defs = [a.value for a in walk_own(f.node) if isinstance(a, ast.Assign) and any(isinstance(t, ast.Name) and t.id == order for t in a.targets)]
+            for dv in defs:
+                if isinstance(dv, ast.ListComp) and isinstance(dv.elt, ast.Call) and isinstance(dv.elt.func, ast.Attribute) and dv.elt.func.attr == "index" \
+                        and isinstance(dv.elt.func.value, ast.Name):
+                    n += 1
+                    src = dv.elt.func.value.id
+                    ok = src == D
+                    res.inst(f"{q}: {arr}.transpose(*{order}) with {order} = {norm(dv)[:50]}: positions looked up in the dims of {arr} ('{D}'): {ok}", f"{q}|{c.lineno}")
+                    if not ok:
+                        res.report(f"{q}|inverse-transpose-order|{order}", f.where(c), q,
+                                   f"'{norm(dv)[:60]}' looks positions up in '{src}', not in '{D}' (the dims of the array being transposed): that is the inverse "
+                                   "permutation, equal to the right one only for the identity and single swaps; a grouper whose dims are a rotation of the array's "
+                                   "gets its labels attached to other elements")
+    if n == 0:
+        raise AnalysisError("no transpose(*order) with a looked-up order on a (dims, array) pair found (anchor: xarray._broadcast_size_one_dims)")
+    return res
